@@ -51,6 +51,21 @@ snapshot   ``circuit-status`` lists LAUNCHED / EXTENDED / GUARD_WAIT / BUILT cir
            one inline entry, data block.
 ids        small pools, so identifiers are re-used - only after the object is gone.
 
+API in short
+    sim = TorSim(max_circuits=6, max_streams=8)        # fresh model (relays: default_relays())
+    sim.populate(rnd, k); sim.take_snapshot() -> [Ev]   # unobserved population, then freeze the snapshot
+    sim.install(fake_tor)                               # GETINFO keys + CLOSECIRCUIT/CLOSESTREAM/EXTENDCIRCUIT/
+                                                        # ATTACHSTREAM/SETCONF __LeaveStreamsUnattached handlers
+    sim.propose(rnd) -> action | None; sim.legal(a); sim.apply(a) -> [Ev]; sim.generate(rnd, n) -> [actions]
+    sim.circuits / sim.streams (live: id -> SimCircuit / SimStream), sim.dead_circuits / sim.dead_streams (uid ->),
+    sim.circuit_of(sid), sim.streams_on(cid), sim.path_ids(c), object fields reported_target / reported_source /
+    reported_remap / last_keywords / ever_built / first_seen / uid
+    sim.close_policy = f(kind, id) -> {"order": "together" | "event-first" | "ack-first", "as": "CLOSED" | "FAILED"}
+    sim.held_acks + sim.release_ack(); sim.pending + sim.fire_pending()    # harness-owned ack / event order
+    sim.leave_unattached, sim.commands, sim.on_events (observers), sim.stats (what the history contained)
+    script(rnd, pre, n) -> (population, history) off-line; selftest(); SimSession(sim, boot=...) = real
+    TorControlProtocol + TorState bootstrapped against FakeTor + sim (.state .proto .tor .link .step(a) .pump())
+
 Not modelled (never generated): FAILED immediately followed by CLOSED for one stream,
 direct circuit change of a stream without DETACHED, events in the window between the
 snapshot and SETEVENTS, CIRC_MINOR, SOCKS_USERNAME/PASSWORD keywords.
